@@ -896,6 +896,11 @@ def chunks(xs, n):
     return [xs[i:i + n] for i in range(0, len(xs), n)]
 
 
+def dispatch(arg):
+    kind, payload = arg
+    return {"data": data_shard, "rt": rt_shard, "grammar": grammar_shard}[kind](payload)
+
+
 def run(ctx: core.Ctx):
     core.import_all_jinja()
     ctx.rule = ("full product route x name x object kind (and runtime-object x route x name) rendered in a fresh "
@@ -912,13 +917,13 @@ def run(ctx: core.Ctx):
     rids = [r[0] for r in data_routes()]
     if len(set(rids)) != len(rids):
         raise core.HarnessError("duplicate route ids")
-    shards = [(cfg, c) for cfg in cfgs for c in chunks(rids, 6)]
-    ctx.pmap(data_shard, shards)
     bids = [b[0] for b in runtime_bases()]
-    ctx.pmap(rt_shard, [(cfg, c) for cfg in cfgs for c in chunks(bids, 3)])
     n = sum(1 for _ in grammar_programs())
     step = 600
-    ctx.pmap(grammar_shard, [(asy, lo, lo + step) for asy in (False, True) for lo in range(0, n, step)])
+    shards = [("data", (cfg, c)) for cfg in cfgs for c in chunks(rids, 4)]
+    shards += [("rt", (cfg, c)) for cfg in cfgs for c in chunks(bids, 3)]
+    shards += [("grammar", (asy, lo, lo + step)) for asy in (False, True) for lo in range(0, n, step)]
+    ctx.pmap(dispatch, shards)
     ctx.cov["bounds"] = {
         "configs": cfgs, "data_routes": len(rids), "names": len(NAMES), "object_kinds": len(KINDS),
         "runtime_bases": len(bids), "runtime_routes": len(RT_ROUTES), "grammar_programs_per_mode": n,
